@@ -179,6 +179,10 @@ def attribute(d, info):
         if site_region and site_region[2] in ('ghost', 'derived'):
             return Failure(None, 'tool', msg + ' (inside ghost region %s)' % site_region[3], lines, detail)
         return Failure('%s/safety' % site_fn[2], kind, msg, lines, detail)
+    if kind == 'semantic' and (site_region is None or site_region[2] == 'blk'):
+        # a verification failure in executable code that belongs to no function the extractor knows (macro-generated
+        # items): it concerns no contract; only C08 (all code returns normally) has to mention it
+        return Failure('<unattributed>/safety', kind, msg, lines, detail)
     if site_region:
         return Failure(None, 'tool' if kind == 'semantic' else kind, msg + ' (inside %s region %s)' % (site_region[2], site_region[3]), lines, detail)
     return Failure(None, 'tool' if kind == 'semantic' else kind, msg, lines, detail)
